@@ -29,6 +29,8 @@
 (*   cbdata h, name, t: start|end, pl, full   what h read from its copy    *)
 (*   ret    err, out, outs   the call returned                             *)
 (*   done                    end of the case: completeness is judged       *)
+(*   crash  msg              the process died in library code during the   *)
+(*                           run (e.g. double close of a shared stream)    *)
 (*   note   ...              ignored                                       *)
 (*                                                                         *)
 (* Reading of an ambiguous clause: a handler designated to a graph node    *)
@@ -148,6 +150,7 @@ Apply(S, e) ==
   ELSE IF e.ev = "cb" THEN Cb(S, e)
   ELSE IF e.ev = "cbdata" THEN CbData(S, e)
   ELSE IF e.ev = "ret" THEN [S EXCEPT !.ret = [seen |-> TRUE, err |-> e.err, out |-> e.out, outs |-> e.outs]]
+  ELSE IF e.ev = "crash" THEN Bad(S, "run-crashed")
   ELSE IF e.ev = "done" THEN Bad(S, Final(S))
   ELSE Bad(S, "unknown-line")
 
